@@ -11,6 +11,7 @@ hence the area of a scaled curved shape is sx·sy times the area, every moment m
 -/
 import ShapeVerif.Props.C09b
 import ShapeVerif.Proofs.AffineGen
+import ShapeVerif.Proofs.TranslateGen
 
 namespace ShapeVerif.C09
 open ShapeVerif
@@ -60,6 +61,31 @@ theorem area_scale_all (j : Jordan) (hj : ∀ s ∈ j, 2 ≤ s.length) (sx sy : 
     have ih' := ih (fun s hs => hj s (List.mem_cons_of_mem _ hs))
     simp only [List.map_cons, List.sum_cons] at ih' ⊢
     rw [h1, ih']; ring
+
+/-! ### translation: the area of a CLOSED curve with pieces of any degree does not depend on its position -/
+
+/-- a piece starts at its first and ends at its last control point -/
+theorem curve_end_points (s : Seg) (hs : s ≠ []) : evalSeg s 0 = s.headD Pt.zero ∧ evalSeg s 1 = s.getLastD Pt.zero :=
+  ⟨evalSeg_zero s hs, evalSeg_one s hs⟩
+
+/-- ∫ dy over a piece is the rise of its ordinate (fundamental theorem on coefficient lists) -/
+theorem integral_dy (s : Seg) (hs : 2 ≤ s.length) : exactVertical s 0 0 = (s.getLastD Pt.zero).y - (s.headD Pt.zero).y :=
+  exactVertical_dy s hs
+
+/-- ∮ dy = 0 around every closed chain -/
+theorem closed_curve_dy (j : Jordan) (hj : ∀ s ∈ j, 2 ≤ s.length)
+    (hchain : ∀ p ∈ j.zip (j.tail ++ j.take 1), (p.1.getLastD Pt.zero).y = (p.2.headD Pt.zero).y) :
+    jordanExactVertical j 0 0 = 0 := closed_chain_dy j hj hchain
+
+/-- moving a piece: ∫ (x + dx) dy = ∫ x dy + dx ∫ dy -/
+theorem integral_move (s : Seg) (hs : 2 ≤ s.length) (d : Pt) :
+    exactVertical (s.map (·.move d)) 1 0 = exactVertical s 1 0 + d.x * exactVertical s 0 0 := exactVertical_move s hs d
+
+/-- hence the signed area of a closed curve with pieces of any degree is invariant under translation -/
+theorem area_move_all (j : Jordan) (hj : ∀ s ∈ j, 2 ≤ s.length)
+    (hchain : ∀ p ∈ j.zip (j.tail ++ j.take 1), (p.1.getLastD Pt.zero).y = (p.2.headD Pt.zero).y) (d : Pt) :
+    Jordan.area (j.map (·.move d)) = Jordan.area j :=
+  area_move_closed j hj (closed_chain_dy j hj hchain) d
 
 /-! non-vacuity: a cubic moved, scaled and rotated (3-4-5) agrees with the moved / scaled / rotated point of the curve -/
 example : evalSeg (([⟨0,0⟩, ⟨1,2⟩, ⟨3,0⟩, ⟨4,1⟩] : Seg).map (·.rot (3/5) (4/5))) (1/3)
